@@ -514,6 +514,7 @@ func C18(p *engine.Prog, r *engine.Report) {
 	}
 	// a compressed certificate keeps every individually signed field of every vote (shared with C07)
 	importRules(p, r, "C07", map[string]string{"C07-R6": "C18-R6"})
+	c18R7(p, r, cts)
 }
 
 func encNames(fs []*ssa.Function) string {
@@ -1012,4 +1013,112 @@ func isRepoContainer(k fkey) bool {
 		}
 	}
 	return false
+}
+
+// ---------------------------------------------------------------- R7
+// (a) decoders: a slice stored into the decoded object inside a loop does not share its backing
+// array with the slice stored by another iteration (its ancestry through append / re-slicing does
+// not pass a value carried around the loop in which it is stored); (b) hashing: a pooled hasher is
+// not used after, and does not escape past, its Put — crypto.Hash is a function of its input only.
+func c18R7(p *engine.Prog, r *engine.Report, cts []*codecType) {
+	n := 0
+	for _, ct := range cts {
+		for _, f := range closureOf(ct.dec) {
+			if f.Blocks == nil {
+				continue
+			}
+			for _, b := range f.Blocks {
+				hdr := enclosingLoopHeader(b)
+				if hdr == nil {
+					continue
+				}
+				for _, ins := range b.Instrs {
+					var val ssa.Value
+					switch x := ins.(type) {
+					case *ssa.MapUpdate:
+						val = x.Value
+					case *ssa.Store:
+						// only destinations that differ per iteration: an element, or a field of an
+						// object created in this iteration (accumulating into one field is not aliasing)
+						switch a := x.Addr.(type) {
+						case *ssa.IndexAddr:
+							val = x.Val
+						case *ssa.FieldAddr:
+							if al, isAl := engine.Unwrap(a.X).(*ssa.Alloc); isAl && loopBlocks(hdr)[al.Block()] {
+								val = x.Val
+							}
+						}
+					}
+					if val == nil {
+						continue
+					}
+					if _, isSl := val.Type().Underlying().(*types.Slice); !isSl {
+						continue
+					}
+					n++
+					carried := false
+					seen := map[ssa.Value]bool{}
+					var walk func(v ssa.Value)
+					walk = func(v ssa.Value) {
+						v = engine.Unwrap(v)
+						if seen[v] || len(seen) > 200 {
+							return
+						}
+						seen[v] = true
+						switch x := v.(type) {
+						case *ssa.Phi:
+							if x.Block() == hdr {
+								carried = true
+								return
+							}
+							for _, e := range x.Edges {
+								walk(e)
+							}
+						case *ssa.Slice:
+							walk(x.X)
+						case *ssa.Call:
+							if bi, isB := x.Call.Value.(*ssa.Builtin); isB && bi.Name() == "append" {
+								walk(x.Call.Args[0])
+							}
+						case *ssa.UnOp:
+							if a, isA := x.X.(*ssa.Alloc); isA && x.Op == token.MUL {
+								// a local slice variable kept in a cell: allocated outside the loop and assigned inside it
+								if !loopBlocks(hdr)[a.Block()] {
+									for _, st := range engine.StoresTo(a) {
+										if loopBlocks(hdr)[st.Block()] {
+											carried = true
+										}
+									}
+								}
+							}
+						}
+					}
+					walk(val)
+					if carried {
+						r.Bad("C18-R7", uniq(r, ct.named.Obj().Name()+"|"+engine.RelName(f)+" stores a slice whose backing array is carried across iterations"), p.InstrPos(ins), "the slice stored here is built on a value the enclosing loop carries from one iteration to the next (re-sliced to [:0] / appended to): every element stored by the loop shares one backing array, later iterations overwrite what earlier ones decoded — the object does not decode to what was encoded")
+					}
+				}
+			}
+		}
+	}
+	r.OK("C18-R7", "decoders|slices stored inside loops are per iteration", "", itoa(int64(n))+" slice stores inside decoder loops scanned")
+	if n < 5 {
+		r.Und("C18-R7", "decoders|scan size", "", "only "+itoa(int64(n))+" slice stores inside loops found")
+	}
+	// (b) pools
+	puts := 0
+	for _, f := range p.AllFuncs() {
+		if pk := engine.FuncPkg(f); pk == nil || !engine.IsRepoPkg(pk) || f.Synthetic != "" || f.Blocks == nil || isTestish(p.Pos(f.Pos())) {
+			continue
+		}
+		for _, c := range engine.Calls(f) {
+			if o := engine.CalleeObj(c.Common()); o != nil && o.Name() == "Put" && o.Pkg() != nil && o.Pkg().Path() == "sync" {
+				puts++
+			}
+		}
+		for _, bad := range poolUseAfterPut(f) {
+			r.Bad("C18-R7", uniq(r, engine.RelName(f)+"|pooled object used after (or returned past) its Put"), p.InstrPos(bad), "the object is back in the sync.Pool while this function (or its caller) still uses it: a concurrent Get hands the same hasher/buffer to another goroutine, digests and encodings stop being functions of their input")
+		}
+	}
+	r.Check(puts >= 3, "C18-R7", "repo|sync.Pool objects are not used after Put", "", itoa(int64(puts))+" Put sites scanned", "fewer Put sites than confirmed by reading (keccak, shake, rlp encbuf, log buffer)")
 }
